@@ -58,11 +58,12 @@ def realise(rec, accel, prev_w=None):
             d["sub"] = "SUB" if rec.get("blk", 0) % 2 else "ADD"
         return d
     kh, kw, s = rec["kh"], rec["kw"], rec["s"]
+    sx = rec.get("sx", 0) or s            # independent horizontal stride (0: same as the vertical one)
     pt, pb = min(rec["pt"], kh - 1), min(rec["pb"], kh - 1)
     pl, pr = min(rec["pl"], kw - 1), min(rec["pr"], kw - 1)
     oh = (H + pt + pb - kh) // s + 1
-    ow = (W + pl + pr - kw) // s + 1
-    d["kernel"] = [kw, kh, s, s, 1, 1]
+    ow = (W + pl + pr - kw) // sx + 1
+    d["kernel"] = [kw, kh, sx, s, 1, 1]
     d["pad"] = [pt, pl, pb, pr]
     d["ofm"] = _fm(rec["w"], (oh, ow, C), lo, tile=rec.get("tileo", 0))
     if k == "pool":
@@ -113,3 +114,27 @@ def realise_list(recs, accel):
         if r["kind"] != "lutdma":
             prev_w = r["w"]
     return out
+
+
+def blockdep_pair(q, sx, accel):
+    """A case of spec/BlockDep.tla (H, pb, k, s, pt, pr, cb) with horizontal stride sx as a producer / consumer pair of real
+    operations: an elementwise producer writing an H x 8 x 16 feature map in blocks of pb rows (one block column, one depth
+    block), and a max-pool consumer with kernel k x (1 + pr), strides (s vertical, sx horizontal), pads top = pt, right = pr,
+    in blocks of cb rows.  None when the accelerator cannot take these block heights (micro-block height 2)."""
+    uh = npuhw.ACCEL[accel][4][1]
+    uw = npuhw.ACCEL[accel][4][0]
+    if q["pb"] % uh or q["cb"] % uh:
+        return None
+    Hh, Ww = q["H"], 8
+    kw = 1 + q["pr"]
+    oh = (Hh + q["pt"] - q["k"]) // q["s"] + 1
+    ow = (Ww + q["pr"] - kw) // sx + 1
+    if oh < 1 or ow < 1:
+        return None
+    prod = {"type": "ew", "sub": "ADD", "ifm": _fm(1, (Hh, Ww, C), 0), "ofm": _fm(2, (Hh, Ww, C), 0),
+            "ifm2": {"shape": [1, 1, 1], "region": 0, "addr": 0, "dtype": "INT8", "scale": 0.5, "zp": 0}, "scalar": 3.0,
+            "block": [q["pb"], Ww, C]}
+    cons = {"type": "pool", "sub": "MAX", "ifm": _fm(2, (Hh, Ww, C), 0), "ofm": _fm(3, (oh, ow, C), 0),
+            "kernel": [kw, q["k"], sx, q["s"], 1, 1], "pad": [q["pt"], 0, 0, q["pr"]],
+            "block": [q["cb"], -(-ow // uw) * uw, C]}
+    return [prod, cons]
